@@ -103,6 +103,13 @@ OnnxFunctionDecorator = Callable[[OnnxFunctionTarget], OnnxFunctionTarget]
 
 @contextmanager
 def _temporary_x64(enabled: bool) -> Iterator[None]:
+    scoped_x64 = getattr(jax, "enable_x64", None)
+    if callable(scoped_x64):
+        # Scoped override restores the caller's state exactly, even inside a
+        # user-level ``with jax.enable_x64(...)`` block.
+        with scoped_x64(bool(enabled)):
+            yield
+        return
     prev = jax.config.jax_enable_x64
     try:
         if enabled != prev:
